@@ -21,9 +21,12 @@ How the model reads the tables:
   `--list --json`).  `compiledTask` only calls `Value` (no write).
 * `guards`: `IsTaskUpToDate` is skipped under `skipFingerprinting` (`--force`); the prompt
   is skipped when dry; `mkdir` is skipped when dry (`Cfg.fixed.dryMkdir = false`; unguarded in
-  the tree as found); `execext.RunCommand` is unreachable when dry; `statusOnError` is
-  called at two places: when the prompt is declined (under `!e.Dry`, like the prompt itself) and
-  inside the command loop.
+  the tree as found); `execext.RunCommand` is unreachable when dry, but a `task:` command is
+  followed (`runCommand:e.RunTask` has no dry guard) and the callee's preconditions are evaluated
+  (`areTaskPreconditionsMet` unguarded): `Cmd.need` / `Cmd.blocked`, the one way a dry body fails;
+  `statusOnError` is called at two places — when the prompt is declined (under `!e.Dry`, like the
+  prompt itself) and inside the command loop — and, since TS4, reaches `checker.OnError` only under
+  `!(e.Dry)` (`Cfg.fixed.dryOnError = false`; unguarded in the tree as found).
 * `checksumIsUpToDate`: read old → compute new → write under `!checker.dry && oldHash !=
   newHash` → generates check → `return oldHash == newHash` (`sumCheck`).
 * `timestampIsUpToDate` (patched by TS1/TS2): Globs sources, Globs generates, `generatesExist`
@@ -65,7 +68,8 @@ theorem dryWiring_fields_ok : DryWiring.fields = [("NewChecksumChecker.dry", "dr
 platform and call-count checks, deferred commands — belong to other domains and may change) -/
 def fingerGuardKeys : List String :=
   ["Executor.RunTask:fingerprint.IsTaskUpToDate", "Executor.RunTask:e.Logger.Prompt", "Executor.RunTask:e.mkdir",
-   "Executor.RunTask:e.runCommand", "Executor.RunTask:e.statusOnError", "Executor.runCommand:execext.RunCommand",
+   "Executor.RunTask:e.runCommand", "Executor.RunTask:e.statusOnError", "Executor.RunTask:e.areTaskPreconditionsMet",
+   "Executor.runCommand:e.RunTask", "Executor.runCommand:execext.RunCommand",
    "Executor.Status:fingerprint.IsTaskUpToDate", "Executor.statusOnError:checker.OnError",
    "Executor.ToEditorOutput:fingerprint.IsTaskUpToDate", "Executor.ListTasks:e.ToEditorOutput",
    "Executor.Run:summary.PrintTask", "Executor.Run:e.splitRegularAndWatchCalls"]
@@ -73,15 +77,17 @@ def fingerGuardKeys : List String :=
 set_option maxRecDepth 4096 in
 theorem dryWiring_guards_ok :
     DryWiring.guards.filter (fun g => fingerGuardKeys.contains g.1) =
-      [("Executor.RunTask:fingerprint.IsTaskUpToDate", "!skipFingerprinting"),
+      [("Executor.RunTask:e.areTaskPreconditionsMet", ""),
+       ("Executor.RunTask:fingerprint.IsTaskUpToDate", "!skipFingerprinting"),
        ("Executor.RunTask:e.Logger.Prompt", "range t.Prompt && p != \"\" && !e.Dry"),
        ("Executor.RunTask:e.statusOnError", "range t.Prompt && p != \"\" && !e.Dry"),
        ("Executor.RunTask:e.mkdir", "!e.Dry"),
        ("Executor.RunTask:e.runCommand", "range t.Cmds && !(t.Cmds[i].Defer)"),
        ("Executor.RunTask:e.statusOnError", "range t.Cmds && !(t.Cmds[i].Defer)"),
+       ("Executor.runCommand:e.RunTask", "case cmd.Task != \"\""),
        ("Executor.runCommand:execext.RunCommand", "case cmd.Cmd != \"\" && !(!shouldRunOnCurrentPlatform(cmd.Platforms)) && !(e.Dry)"),
        ("Executor.Status:fingerprint.IsTaskUpToDate", "range calls"),
-       ("Executor.statusOnError:checker.OnError", ""),
+       ("Executor.statusOnError:checker.OnError", "!(e.Dry)"),
        ("Executor.ToEditorOutput:fingerprint.IsTaskUpToDate", "!(noStatus)"),
        ("Executor.ListTasks:e.ToEditorOutput", "o.FormatTaskListAsJSON"),
        ("Executor.Run:summary.PrintTask", "e.Summary && range calls"),
